@@ -29,6 +29,10 @@ pub enum WeightRegime {
     MostlyOnes,
     /// subnormal weights (k x 1e-310): sums stay below f64::MIN_POSITIVE, quotients by them overflow
     Subnormal,
+    /// dyadic weights times 2^400 (about 1e120): every ratio is exact, every product of three overflows
+    HugeDyadic,
+    /// dyadic weights times 2^-400: every ratio is exact, every product of three underflows to zero
+    MinusculeDyadic,
 }
 
 impl WeightRegime {
@@ -36,6 +40,8 @@ impl WeightRegime {
         match self {
             WeightRegime::AllNan => f64::NAN,
             WeightRegime::Dyadic => (1 + rng.below(32)) as f64 / 8.0,
+            WeightRegime::HugeDyadic => (1 + rng.below(32)) as f64 / 8.0 * (2.0f64).powi(400),
+            WeightRegime::MinusculeDyadic => (1 + rng.below(32)) as f64 / 8.0 * (2.0f64).powi(-400),
             WeightRegime::SmallInt => (1 + rng.below(5)) as f64,
             WeightRegime::Nasty => *rng.pick(&[0.1, 0.2, 0.3, 0.7, 1.1, 0.15, 2.5, 0.30000000000000004]),
             WeightRegime::ZeroDyadic => {
